@@ -6,6 +6,6 @@ PAT=${1:-.}
 for d in $(ls -d seeded/C*/ | grep -E "$PAT"); do
   d=${d%/}
   P=$(python3 -c "import json,sys; print(json.load(open('$d/meta.json'))['property'][:3])")
-  OUT=$(CHECK_TIMEOUT=${CHECK_TIMEOUT:-1500} tools/try_mutant.sh $d/patch.diff $P quick 2>&1 | tail -1)
+  OUT=$(CHECK_TIMEOUT=${CHECK_TIMEOUT:-1500} tools/try_mutant.sh $d/patch.diff $P quick --stop-at-first 2>&1 | tail -1)
   if [ "$OUT" = "exit=1" ]; then echo "$d $P caught"; else echo "$d $P MISSED ($OUT)"; fi
 done
